@@ -31,7 +31,7 @@ ASSUMPTIONS = ['collective semantics follow the mpi4py documentation (no real MP
                'as tie-free (every farthest-point choice and stopping test unambiguous beyond 1e-6 relative)']
 REACH_EXPECTED = ['farthest_point_changed_owner', 'rank_with_single_frame', 'eager_root_ran_ahead',
                   'equal_length_group_on_rank', 'tie_free_equality_checked', 'kmedoids_stage_checked',
-                  'schedule_independence_checked', 'op_randind_empty_local', 'app_end_to_end', 'app_equals_serial', 'app_subsample']
+                  'schedule_independence_checked', 'op_randind_empty_local', 'app_end_to_end', 'app_equals_serial', 'app_subsample', 'app_files_not_in_name_order', 'app_no_reassign_without_subsample']
 
 
 def scenario(ctx):
